@@ -366,11 +366,11 @@ flenp_buffer_from_source(const LengthPrefixKind k,
                          Source *source, ByteBuffer *b)
 {
     const ssize_t rc =
-        flenp_memory_from_source(k, source, b->data + b->offset,
+        flenp_memory_from_source(k, source, b->data + b->used,
                                  byte_buffer_avail(b));
 
     if (rc >= 0) {
-        b->offset += rc;
+        b->used += rc;
     }
 
     return rc;
